@@ -711,32 +711,36 @@ def replace(eq: str, term: str, replacement: str, rhs_only: tp.Optional[bool] = 
     ################################################################
 
     eq_new = ""
-    idx = eq.find(term)
+    pos = 0
+    idx = eq.find(term) if term else -1
 
-    # go through all appearances of term in eq
+    # go through all appearances of term in eq. Boundaries are tested on the full equation string (testing them on
+    # the not-yet-processed remainder treated the second `r` of `rr` as the start of the string), and a term that
+    # itself starts/ends with an operator or a blank needs no boundary on that side.
     while idx != -1:
 
         # get idx of sign that follows after term
         idx_follow_op = idx+len(term)
 
-        # if it is an allowed sign, replace term, else not
+        # if the term is delimited on both sides, replace it, else not
         replaced = False
-        if ((idx_follow_op < len(eq) and eq[idx_follow_op] in allowed_follow_ops) and
-           (idx == 0 or eq[idx-1] in allowed_follow_ops)) or \
-                (idx_follow_op == len(eq) and eq[idx-1] in allowed_follow_ops):
+        before_ok = idx == 0 or eq[idx-1] in allowed_follow_ops or term[0] in allowed_follow_ops
+        after_ok = idx_follow_op == len(eq) or eq[idx_follow_op] in allowed_follow_ops or \
+            term[-1] in allowed_follow_ops
+        if before_ok and after_ok:
             eq_part = eq[:idx]
             if (rhs_only and "=" in eq_part) or (lhs_only and "=" not in eq_part) or (not rhs_only and not lhs_only):
-                eq_new += f"{eq_part}{replacement}"
+                eq_new += f"{eq[pos:idx]}{replacement}"
                 replaced = True
         if not replaced:
-            eq_new += f"{eq[:idx_follow_op]}"
+            eq_new += eq[pos:idx_follow_op]
 
         # jump to next appearance of term in eq
-        eq = eq[idx_follow_op:]
-        idx = eq.find(term)
+        pos = idx_follow_op
+        idx = eq.find(term, pos)
 
     # add rest of eq to new eq
-    eq_new += eq
+    eq_new += eq[pos:]
 
     return eq_new
 
